@@ -93,6 +93,7 @@ C06_final(h) == \A t \in P!VTasks(h.post) :
                    ClaimRuleOK(h.post[t].state, h.post[t].claim)
                    \/ (t \in DOMAIN h.pre /\ h.pre[t].state = h.post[t].state /\ h.pre[t].claim = h.post[t].claim)
 C15_final(h) == Acyclic(P!VWaits(h.post)) \/ ~Acyclic(P!VWaits(h.pre))
+C08_serial(h) == h.facts.crashes = 0 => Explained(h)     \* "nothing ready" only when nothing is ready
 C09_serial(h) == h.facts.crashes = 0 => Explained(h)
 C10_serial(h) == h.facts.crashes = 0 => Explained(h)
 C14_final(h) == \A t \in P!VTasks(h.post) : P!EpicRefOK(h.post, t)
